@@ -245,7 +245,7 @@ def write_reads(case, d):
                     if r["qual"]:
                         a.query_qualities = pysam.qualitystring_to_array(r["qual"])
                 for tag, typ, val in r["tags"]:
-                    a.set_tag(tag, val, value_type=typ if typ != "B" else None)
+                    a.set_tag(tag, val, value_type=typ if typ in "fAZ" else None)
                 f.write(a)
         return path
     text = "".join(fastq_record_text(r) for r in case["reads"])
